@@ -1,1 +1,478 @@
-fn main(){ vharness::hi(); let _ = wirm::Module::parse(&[], false); }
+//! vcheck: supervisor / worker / replay entry points.
+//!
+//!   vcheck run <ID> <quick|thorough>      supervisor: runs the check, writes evidence, prints verdict lines
+//!   vcheck replay <file>                  strict single re-execution of a saved case
+//!   vcheck worker ...                     (internal) generated-case worker process
+//!   vcheck one ...                        (internal) one tape in a fresh process
+//!
+//! Exit codes: 0 held, 1 violation (with VIOLATION lines), 2 infrastructure problem.
+
+use serde_json::{json, Value};
+use std::collections::BTreeMap;
+use std::process::Command;
+use std::time::Instant;
+use vharness::engine::*;
+use vharness::tape::{hex, unhex};
+use vharness::{capture, props};
+
+fn root() -> String {
+    std::env::var("VERIF_ROOT").unwrap_or_else(|_| "/verif".to_string())
+}
+fn seed() -> u64 {
+    std::env::var("VERIF_SEED").ok().and_then(|s| s.parse::<i64>().ok()).map(|v| v as u64).unwrap_or(1)
+}
+fn tier_of(s: &str) -> Tier {
+    if s == "thorough" {
+        Tier::Thorough
+    } else {
+        Tier::Quick
+    }
+}
+
+fn silence_stdout() {
+    // the library println!s from ComponentIterator::new; keep our own stdout clean
+    unsafe {
+        let devnull = libc::open(b"/dev/null\0".as_ptr() as *const libc::c_char, libc::O_WRONLY);
+        if devnull >= 0 {
+            libc::dup2(devnull, 1);
+            // proptest reports shrink-limit notices on stderr; the supervisor prints what matters
+            if std::env::var("VERIF_WORKER_STDERR").is_err() {
+                libc::dup2(devnull, 2);
+            }
+            libc::close(devnull);
+        }
+    }
+}
+
+fn stats_to_json(st: &Stats) -> Value {
+    json!({
+        "evaluations": st.evaluations,
+        "nontrivial": st.nontrivial.iter().collect::<Vec<_>>(),
+        "classes": st.classes,
+        "discards": st.discards,
+        "excluded": st.excluded,
+        "gen_invalid": st.gen_invalid,
+        "samples": st.samples,
+        "known": st.known.iter().map(|(k,(n,d))| (k.clone(), json!([n, d]))).collect::<BTreeMap<_,_>>(),
+        "muted_repeats": st.muted_repeats,
+    })
+}
+fn stats_from_json(v: &Value) -> Stats {
+    let mut st = Stats::default();
+    st.evaluations = v["evaluations"].as_u64().unwrap_or(0);
+    if let Some(a) = v["nontrivial"].as_array() {
+        for x in a {
+            if let Some(n) = x.as_u64() {
+                st.nontrivial.insert(n);
+            }
+        }
+    }
+    let map = |k: &str| -> BTreeMap<String, u64> {
+        v[k].as_object()
+            .map(|o| o.iter().map(|(k, v)| (k.clone(), v.as_u64().unwrap_or(0))).collect())
+            .unwrap_or_default()
+    };
+    st.classes = map("classes");
+    st.discards = map("discards");
+    st.excluded = map("excluded");
+    st.gen_invalid = v["gen_invalid"].as_u64().unwrap_or(0);
+    if let Some(a) = v["samples"].as_array() {
+        st.samples = a.iter().filter_map(|x| x.as_str().map(|s| s.to_string())).collect();
+    }
+    if let Some(o) = v["known"].as_object() {
+        for (k, x) in o {
+            st.known.insert(k.clone(), (x[0].as_u64().unwrap_or(0), x[1].as_str().unwrap_or("").to_string()));
+        }
+    }
+    st.muted_repeats = v["muted_repeats"].as_u64().unwrap_or(0);
+    st
+}
+
+fn viol_to_json(v: &Violation) -> Value {
+    json!({"sig": v.sig, "detail": v.detail, "tape_hex": hex(&v.tape),
+           "mode": match v.mode { Mode::Main => "main", Mode::Probe => "probe", Mode::Replay => "replay" },
+           "rendered": v.rendered})
+}
+fn viol_from_json(v: &Value) -> Violation {
+    Violation {
+        sig: v["sig"].as_str().unwrap_or("").into(),
+        detail: v["detail"].as_str().unwrap_or("").into(),
+        tape: unhex(v["tape_hex"].as_str().unwrap_or("")),
+        mode: mode_from(v["mode"].as_str().unwrap_or("replay")),
+        rendered: v["rendered"].as_str().unwrap_or("").into(),
+    }
+}
+
+fn worker(args: &[String]) -> i32 {
+    // worker <ID> <tier> <seed> <outfile> <inflightdir>
+    silence_stdout();
+    capture::init();
+    let id = &args[0];
+    let tier = tier_of(&args[1]);
+    let seed: u64 = args[2].parse().unwrap_or(1);
+    let out = &args[3];
+    let Some(d) = props::get(id) else { return 2 };
+    let findings = Findings::load(&format!("{}/known_findings.json", root()));
+    let inflight = InFlight::new(&args[4], threads());
+    let mut res = run_generated(d.as_ref(), tier, seed, &findings, Some(&inflight));
+    let hz = findings.hazards();
+    d.extra(tier, &mut res.stats, &hz, &mut res.violations, &findings);
+    let v = json!({
+        "stats": stats_to_json(&res.stats),
+        "violations": res.violations.iter().map(viol_to_json).collect::<Vec<_>>(),
+    });
+    if std::fs::write(out, serde_json::to_string(&v).unwrap()).is_err() {
+        return 2;
+    }
+    0
+}
+
+fn one(args: &[String]) -> i32 {
+    // one <ID> <mode> <tapefile> <outfile>
+    silence_stdout();
+    capture::init();
+    let Some(d) = props::get(&args[0]) else { return 2 };
+    let mode = mode_from(&args[1]);
+    let tape = std::fs::read(&args[2]).unwrap_or_default();
+    let findings = Findings::load(&format!("{}/known_findings.json", root()));
+    let hz = findings.hazards();
+    // same stack size as the generated-case worker threads
+    let (o, rendered) = std::thread::scope(|s| {
+        std::thread::Builder::new()
+            .stack_size(vharness::engine::crate_stack())
+            .spawn_scoped(s, || {
+                let mut st = Stats::default();
+                let (o, rendered, _) = run_one(d.as_ref(), &tape, &mut st, &hz, mode, Tier::Quick, true);
+                (o, rendered)
+            })
+            .expect("spawn")
+            .join()
+            .expect("join")
+    });
+    let v = match o {
+        Outcome::Pass => json!({"outcome":"pass","rendered":rendered}),
+        Outcome::Discard(w) => json!({"outcome":"discard","why":w,"rendered":rendered}),
+        Outcome::Fail(f) => json!({"outcome":"fail","sig":f.sig,"detail":f.detail,"rendered":rendered}),
+    };
+    let _ = std::fs::write(&args[3], serde_json::to_string(&v).unwrap());
+    0
+}
+
+struct OneResult {
+    outcome: String,
+    sig: String,
+    detail: String,
+    rendered: String,
+}
+
+fn scratch_dir() -> String {
+    let d = format!("{}/harness/target/vscratch/{}", root(), std::process::id());
+    let _ = std::fs::create_dir_all(&d);
+    d
+}
+
+/// Run one tape in a fresh process so that aborts (stack overflow, abort()) are observable.
+fn run_isolated(id: &str, mode: &str, tape: &[u8], tag: &str) -> OneResult {
+    let dir = scratch_dir();
+    let tf = format!("{}/one-{}.tape", dir, tag);
+    let of = format!("{}/one-{}.json", dir, tag);
+    let _ = std::fs::write(&tf, tape);
+    let _ = std::fs::remove_file(&of);
+    let exe = std::env::current_exe().unwrap();
+    let cf = format!("{}/one-{}.crumb", dir, tag);
+    let _ = std::fs::remove_file(&cf);
+    let st = Command::new(exe).args(["one", id, mode, &tf, &of]).env("VERIF_CRUMB_FILE", &cf).status();
+    let mut r = OneResult { outcome: "abort".into(), sig: String::new(), detail: String::new(), rendered: String::new() };
+    match st {
+        Ok(s) if s.success() => {
+            if let Ok(txt) = std::fs::read_to_string(&of) {
+                if let Ok(v) = serde_json::from_str::<Value>(&txt) {
+                    r.outcome = v["outcome"].as_str().unwrap_or("abort").into();
+                    r.sig = v["sig"].as_str().unwrap_or("").into();
+                    r.detail = v["detail"].as_str().unwrap_or("").into();
+                    r.rendered = v["rendered"].as_str().unwrap_or("").into();
+                }
+            }
+        }
+        Ok(s) => {
+            use std::os::unix::process::ExitStatusExt;
+            let crumb = std::fs::read_to_string(&cf).unwrap_or_default();
+            r.sig = format!("abort:signal-{}@{}", s.signal().unwrap_or(0), if crumb.is_empty() { "?" } else { crumb.as_str() });
+            r.detail = format!("process died: {:?}", s);
+        }
+        Err(e) => {
+            r.outcome = "infra".into();
+            r.detail = format!("{}", e);
+        }
+    }
+    let _ = std::fs::remove_file(&tf);
+    let _ = std::fs::remove_file(&of);
+    let _ = std::fs::remove_file(&cf);
+    r
+}
+
+fn replay(path: &str) -> i32 {
+    let Some(rf) = load_replay(path) else {
+        eprintln!("cannot read replay file {}", path);
+        return 2;
+    };
+    if props::get(&rf.property).is_none() {
+        eprintln!("unknown property {}", rf.property);
+        return 2;
+    }
+    let r = run_isolated(&rf.property, "replay", &rf.tape, "replay");
+    match r.outcome.as_str() {
+        "pass" | "discard" => {
+            println!("replay {}: {} (property held on this case)", path, r.outcome);
+            0
+        }
+        "fail" | "abort" => {
+            println!("{}", r.rendered);
+            println!("signature: {}\ndetail: {}", r.sig, r.detail);
+            println!("VIOLATION property={} replay={}", rf.property, path);
+            1
+        }
+        _ => 2,
+    }
+}
+
+fn run(id: &str, tier_s: &str) -> i32 {
+    let t0 = Instant::now();
+    let tier = tier_of(tier_s);
+    let Some(d) = props::get(id) else {
+        eprintln!("unknown property {}", id);
+        return 2;
+    };
+    let root = root();
+    let seed = seed();
+    let findings = Findings::load(&format!("{}/known_findings.json", root));
+    let dir = scratch_dir();
+    let out = format!("{}/worker.json", dir);
+    let infl = format!("{}/inflight", dir);
+    let exe = std::env::current_exe().unwrap();
+    let mut violations: Vec<(String, String)> = vec![]; // (sig, replay path)
+    let mut known_lines: BTreeMap<String, String> = BTreeMap::new();
+    let mut stats = Stats::default();
+    let mut infra: Option<String> = None;
+
+    let budget_s: u64 = std::env::var("VERIF_TIMEOUT_S").ok().and_then(|s| s.parse().ok()).unwrap_or(match tier {
+        Tier::Quick => 900,
+        Tier::Thorough => 6 * 3600,
+    });
+    let mut child = Command::new(&exe)
+        .args(["worker", id, tier_s, &seed.to_string(), &out, &infl])
+        .spawn()
+        .expect("spawn worker");
+    let status = loop {
+        match child.try_wait() {
+            Ok(Some(s)) => break Some(s),
+            Ok(None) => {
+                if t0.elapsed().as_secs() > budget_s {
+                    let _ = child.kill();
+                    let _ = child.wait();
+                    break None;
+                }
+                std::thread::sleep(std::time::Duration::from_millis(50));
+            }
+            Err(_) => break None,
+        }
+    };
+    match status {
+        None => infra = Some(format!("worker exceeded the {} s safety budget (inconclusive)", budget_s)),
+        Some(s) if s.success() => {
+            match std::fs::read_to_string(&out).ok().and_then(|t| serde_json::from_str::<Value>(&t).ok()) {
+                Some(v) => {
+                    stats = stats_from_json(&v["stats"]);
+                    if let Some(a) = v["violations"].as_array() {
+                        for x in a {
+                            let viol = viol_from_json(x);
+                            if viol.sig.starts_with("harness:") {
+                                infra = Some(format!("{}: {}", viol.sig, viol.detail));
+                                continue;
+                            }
+                            let p = save_replay(&root, id, &viol);
+                            eprintln!("--- violation {} ---\n{}\n{}", viol.sig, viol.detail, viol.rendered);
+                            violations.push((viol.sig.clone(), p));
+                        }
+                    }
+                }
+                None => infra = Some("worker produced no result file".into()),
+            }
+        }
+        Some(s) => {
+            // the worker died: find the aborting case among the in-flight tapes
+            let mut found = false;
+            for (i, (tape, mode)) in InFlight::read_all(&infl).into_iter().enumerate() {
+                let m = match mode {
+                    Mode::Main => "main",
+                    Mode::Probe => "probe",
+                    Mode::Replay => "replay",
+                };
+                let r = run_isolated(id, m, &tape, &format!("inflight{}", i));
+                if r.outcome == "abort" {
+                    found = true;
+                    if let Some(k) = findings.matches(id, &r.sig) {
+                        // a listed abort: not a new violation, but generated search did not complete
+                        known_lines.insert(k.id.clone(), k.what.clone());
+                        infra = Some(format!(
+                            "worker aborted on a case of known finding {} (steering should have avoided it)",
+                            k.id
+                        ));
+                    } else {
+                        let viol = Violation { sig: r.sig.clone(), detail: r.detail.clone(), tape, mode, rendered: r.rendered };
+                        let p = save_replay(&root, id, &viol);
+                        violations.push((viol.sig, p));
+                    }
+                }
+            }
+            if !found {
+                infra = Some(format!("worker died ({:?}) and no in-flight case reproduces it", s));
+            }
+        }
+    }
+
+    // replay tier: every committed file under replays/<ID>/
+    let mut replays_run = 0u64;
+    let rdir = format!("{}/replays/{}", root, id);
+    if let Ok(rd) = std::fs::read_dir(&rdir) {
+        let mut files: Vec<_> = rd.filter_map(|e| e.ok()).map(|e| e.path()).filter(|p| p.extension().map(|x| x == "json").unwrap_or(false)).collect();
+        files.sort();
+        for p in files {
+            let ps = p.to_string_lossy().to_string();
+            if violations.iter().any(|(_, vp)| *vp == ps) {
+                continue; // written by this very run
+            }
+            let Some(rf) = load_replay(&ps) else { continue };
+            if rf.property != id {
+                continue;
+            }
+            replays_run += 1;
+            let r = run_isolated(id, "replay", &rf.tape, "tier");
+            let failed = r.outcome == "fail" || r.outcome == "abort";
+            if r.outcome == "infra" {
+                infra = Some(format!("replay {} could not be executed: {}", ps, r.detail));
+                continue;
+            }
+            if failed {
+                if let Some(k) = findings.matches(id, &r.sig) {
+                    known_lines.insert(k.id.clone(), k.what.clone());
+                    let e = stats.known.entry(k.id.clone()).or_insert((0, r.detail.clone()));
+                    e.0 += 1;
+                } else {
+                    eprintln!("--- replay {} fails: {} ---\n{}\n{}", ps, r.sig, r.detail, r.rendered);
+                    violations.push((r.sig.clone(), ps.clone()));
+                }
+            }
+        }
+    }
+    for (k, _) in stats.known.iter() {
+        if let Some(f) = findings.list.iter().find(|f| f.id == *k) {
+            known_lines.insert(k.clone(), f.what.clone());
+        }
+    }
+
+    // vacuity guards
+    if infra.is_none() && violations.is_empty() {
+        if stats.evaluations > 0 && stats.gen_invalid * 100 > stats.evaluations {
+            infra = Some(format!("generator self-check: {} invalid of {} cases (>1%)", stats.gen_invalid, stats.evaluations));
+        } else if stats.nontrivial.len() < 2 {
+            infra = Some(format!("vacuous run: {} non-trivial cases of {}", stats.nontrivial.len(), stats.evaluations));
+        }
+    }
+
+    // evidence
+    let wall = t0.elapsed().as_secs_f64();
+    let samples: Vec<Value> = if stats.samples.is_empty() {
+        vec![json!("(no sample rendered)")]
+    } else {
+        stats.samples.iter().map(|s| json!(s)).collect()
+    };
+    let ev = json!({
+        "property_id": id,
+        "tier": tier.name(),
+        "seed": seed as i64,
+        "level": "exploration",
+        "coverage": {
+            "evaluations": stats.evaluations,
+            "distinct_nontrivial": stats.nontrivial.len(),
+            "rule": d.rule(),
+            "samples": samples,
+            "classes": stats.classes,
+            "discarded": stats.discards,
+            "excluded_known": stats.excluded,
+            "gen_invalid": stats.gen_invalid,
+            "known_findings_reproduced": stats.known.iter().map(|(k,(n,_))| (k.clone(), *n)).collect::<BTreeMap<_,_>>(),
+            "replays_run": replays_run,
+            "repeats_of_reported_violations": stats.muted_repeats,
+            "threads": threads(),
+            "exhaustive": false,
+        },
+        "assumptions": d.assumptions(),
+        "wall_s": wall,
+        "violations": violations.len(),
+        "infrastructure_problem": infra,
+    });
+    let _ = std::fs::create_dir_all(format!("{}/evidence", root));
+    let _ = std::fs::write(format!("{}/evidence/{}.json", root, id), serde_json::to_string_pretty(&ev).unwrap());
+    let _ = std::fs::remove_dir_all(&dir);
+
+    for (k, what) in &known_lines {
+        println!("KNOWN-FINDING: property={} {} [{}]", id, what, k);
+    }
+    println!(
+        "{} {}: {} cases, {} distinct non-trivial, {} discarded, {} replays, {:.1}s",
+        id,
+        tier.name(),
+        stats.evaluations,
+        stats.nontrivial.len(),
+        stats.discards.values().sum::<u64>(),
+        replays_run,
+        wall
+    );
+    if !violations.is_empty() {
+        for (sig, p) in &violations {
+            println!("VIOLATION property={} replay={}   ({})", id, p, sig);
+        }
+        return 1;
+    }
+    if let Some(m) = infra {
+        println!("INCONCLUSIVE property={} {}", id, m);
+        return 2;
+    }
+    0
+}
+
+fn main() {
+    let args: Vec<String> = std::env::args().skip(1).collect();
+    let code = match args.first().map(|s| s.as_str()) {
+        Some("run") if args.len() >= 3 => run(&args[1], &args[2]),
+        Some("replay") if args.len() >= 2 => replay(&args[1]),
+        Some("worker") if args.len() >= 6 => worker(&args[1..]),
+        Some("one") if args.len() >= 5 => one(&args[1..]),
+        Some("deepnest") if args.len() >= 3 => {
+            // calibration helper: parse a depth-N nest on a thread with the given stack (MB)
+            let depth: usize = args[1].parse().unwrap_or(10);
+            let mb: usize = args[2].parse().unwrap_or(8);
+            let bytes = vharness::props::c03::deep_nest(depth, false);
+            let t0 = Instant::now();
+            let r = std::thread::Builder::new()
+                .stack_size(mb << 20)
+                .spawn(move || wirm::Component::parse(&bytes, false).is_ok())
+                .unwrap()
+                .join();
+            println!("depth {} stack {}MB -> {:?} in {:?}", depth, mb, r.is_ok(), t0.elapsed());
+            0
+        }
+        Some("list") => {
+            for id in props::all_ids() {
+                println!("{}", id);
+            }
+            0
+        }
+        _ => {
+            eprintln!("usage: vcheck run <ID> <quick|thorough> | replay <file> | list");
+            2
+        }
+    };
+    std::process::exit(code);
+}
